@@ -1269,10 +1269,10 @@ def _result_plots(ctx, prog):
             ok = _xy_match(b.get("err_array"), b.get("x_array"), errs,
                            exp_x)
             if ok is None:
-                ctx.unrecognised(
+                ctx.undecidable(
                     "C20.8", ea[0], f"plot_result[x={dim}]: values and x "
                     f"array are re-ordered / recomputed in a way the wiring "
-                    f"rule does not model", key=f"C20.8:raw:{dim}:{has}")
+                    f"rule does not model")
                 continue
             ctx.ob("C20.8", ea[0], bool(ok),
                    f"plot_result[x={dim}, array "
@@ -1297,10 +1297,9 @@ def _result_plots(ctx, prog):
     arr = b.get("array")
     if arr is not None and any(_perm_of(a, errs) not in (None, False)
                                for a in tm.strip_ite(arr)):
-        ctx.unrecognised("C20.8", cm[0], "plot_result: the colour-mapped "
-                         "values are re-ordered before plotting (wiring rule "
-                         "does not model a permuted trajectory)",
-                         key="C20.8:colormap")
+        ctx.undecidable("C20.8", cm[0], "plot_result: the colour-mapped "
+                        "values are re-ordered before plotting (wiring rule "
+                        "does not model a permuted trajectory)")
         return
     ok = b.get("traj") is tm.param("traj_est") and b.get("array") is errs \
         and pm is not None and is_call_to(pm, PL + "PlotMode") and \
